@@ -3,3 +3,4 @@ POSTCONDITION PostCond
 CHECK_DEADLOCK FALSE
 CONSTANTS LangCmpExt = TRUE
   SameLitExt = TRUE
+  IllDtExt = TRUE
